@@ -246,6 +246,21 @@ theorem ks_doOp (env : Env) (b : Book) (o : Op) (hk : keepsSheets o = true) :
     · rw [h1]; exact KS.refl b
     · rw [h1]; exact KS.refl b
     · rw [h1]; exact ks_mMoveColumns hm
+  | setPlainInput s r c t =>
+    simp only [doOp]
+    rcases setPlainInput_cases b s r c t with ⟨e', h1⟩ | ⟨sh, hsh, _, _, ⟨_, h1⟩ | ⟨_, h1⟩⟩
+    · rw [h1]; exact KS.refl b
+    · rw [h1]; exact ks_setSheet hsh rfl rfl
+    · rw [h1]
+      have k1 : KS b (setSheet b s ({ sh with cellAt := upd2 sh.cellAt r c (some t) } : Sheet)) :=
+        ks_setSheet hsh rfl rfl
+      exact k1.trans (ks_setSheet
+        (getSheet_setSheet (t := ({ sh with cellAt := upd2 sh.cellAt r c (some t) } : Sheet)) hsh) rfl rfl)
+  | rangeClearContents s r c w ht =>
+    simp only [doOp]
+    rcases rangeClear_cases b s r c w ht with ⟨e', h1⟩ | ⟨sh, hsh, h1⟩
+    · rw [h1]; exact KS.refl b
+    · rw [h1]; exact ks_setSheet hsh rfl rfl
 
 end IronCalc.User
 
